@@ -159,6 +159,18 @@ CHECKS["C02"] = dict(
     design_ref="DESIGN.md#c02",
 )
 
+CHECKS["C03"] = dict(
+    category="exploration",
+    text="An exhaustive small grammar of numeric schemas (bounds {absent,-1,0,1,5}, equal, exclusive in both dialects, multipleOf) and of "
+    "string schemas (lengths {absent,0,1,3} x patterns), enum/format/example/default/nullable schemas, arrays, objects and "
+    "combinators are placed in every location of OpenAPI 2.0/3.0/3.1 operations; for modes {P},{N},{P,N} every value yielded by the "
+    "top-level boundary generator (tapped) is validated against the schema it was asked for, and every coverage case is checked for "
+    "the labelling rule (negative iff a part is negative or Missing/Duplicate/Unspecified-method) and for part label vs content.",
+    note="Author's example/default values are exempt; non-body parts are read through string coercion; $ref schemas are not judged at value level.",
+    technique="runtime monitoring: generator tap + validity/label oracle over an enumerated schema grammar",
+    design_ref="DESIGN.md#c03",
+)
+
 NOT_APPLICABLE = {}
 
 
